@@ -192,7 +192,7 @@ class Gen:
         ax = rng.randrange(2)
         n = ref.n(ax)
         ev = {'k': 'op', 'name': name, 'slot': s, 'ax': ax,
-              'dst': rng.randrange(8)}
+              'dst': rng.randrange(8), 'pos': int(rng.random() < 0.3)}
         mutating_inplace = False
         if name == 'filter':
             ev.update(by=rng.randrange(2), inv=int(rng.random() < 0.3),
@@ -291,7 +291,8 @@ class Gen:
                       seed=rng.choice([0, 0, 1, rng.randrange(10 ** 6),
                                        rng.randrange(10 ** 6),
                                        rng.randrange(2 ** 32)]),
-                      nadj=rng.randrange(3) if rng.random() < 0.3 else 0)
+                      nadj=rng.randrange(3) if rng.random() < 0.3 else 0,
+                      flagform=rng.choice([0, 0, 1, 2]))
         elif name == 'collapse':
             ev.update(fam=rng.randrange(4), salt=rng.randrange(100),
                       norm=rng.randrange(2), mgs=rng.choice([0, 0, 0, 1, 2]),
